@@ -326,8 +326,18 @@ def mon_c15(k, domain, wildcard=False):
     offered = set()
     fsizes = set()
     answered = set()
+    below2 = set()
     for ev in k.log:
         kind, who, kw = ev[1], ev[2], ev[3]
+        if kind == "wait" and who == "srv" and "rows" in kw:
+            # "the server rejects sizes below 2": whatever it answers, no session may ever be left with such a size
+            for uid, r in enumerate(kw["rows"]):
+                if r["active"] and r["authenticated"] and r["fragsize"] < 2 and uid not in below2:
+                    below2.add(uid)
+                    viol.append(("C15:stored-size-below-2", "the server's table holds fragment size %d for session %d" % (r["fragsize"], uid),
+                                 {"time_us": ev[0]}))
+            stats["c15_table_rows_checked"] = stats.get("c15_table_rows_checked", 0) + len(kw["rows"])
+            continue
         if kind == "tun_read":
             try:
                 offered.add(bytes(kw["data"]))
